@@ -10,10 +10,10 @@
    score is a number (an invariant of all operations: C05_stored_scores_stay_numbers), for
    DeleteRank the table has at most 2^63-1 rows.  Without the NaN premise the statement is false
    of the model (C05_refuted_for_a_stored_nan): the SQL ordering puts NaN last, the sorted map
-   does not.  The aggregated scores of union/intersection and the storing variants are decided by
-   the lock-step specification comparison (not by a theorem); their MEMBERS are proved below for
-   any key list (repetitions, missing and wrong-type keys included). *)
-From Redka Require Import Base Db ImplZSet Ops Spec Abs Inv Refine ProofRange ProofRefineStr ProofRefineZSet.
+   does not.  Union / intersection (with and without storing): members for any key list
+   (repetitions, missing and wrong-type keys included) and the full refinement, aggregated scores
+   included, at the end of this file. *)
+From Redka Require Import Base Db ImplZSet Ops Spec Abs Inv Refine ProofRange ProofRefineStr ProofRefineZSet ProofRefineZAlg.
 From Coq Require Import Floats.
 
 Theorem C05_every_sorted_set_operation_refines_the_sorted_map : forall now o d s,
@@ -69,6 +69,38 @@ Theorem C05_inter_members_for_any_key_list : forall g now d keys e, Inv d -> key
   forall k, In k keys -> exists r, live_key now d k T_ZSET = Some r /\ In e (map z_elem (zset_rows d (k_id r))).
 Proof. exact C05_inter_membership. Qed.
 
+(* ---- union / intersection over several keys, with and without storing (ProofRefineZAlg.v) ----
+   wf_zalg: for min / max every stored score is a number and none is -0 (both are invariants of
+   every operation: C05_stored_scores_stay_numbers_under_every_operation, ..._never_negative_zero);
+   for sum, the sum the model computes (scores of a member added in row order, as SQLite's sum()
+   visits them) equals the sum the specification computes (added in key-list order): binary64
+   addition is not associative, so with three or more keys the two can differ
+   (C05_sum_order_counterexample, scores 1e16, -1e16, 1); with at most two distinct keys the
+   condition always holds (C05_side_condition_holds_for_two_keys).  The generators draw scores from
+   {-inf, -1, 0, 0.5, 1, +inf}, the property's domain, whose sums are exact in any order. *)
+Theorem C05_union_and_intersection_refine : forall now o d s,
+  zalg_op o = true -> wf_zalg o d -> Inv d -> R now d s -> step_refines now o d s.
+Proof. exact C05_zalg_step_refines_partial. Qed.
+
+Theorem C05_sum_order_counterexample :
+  ~ (forall now o d s, zalg_op o = true -> nums d -> normals d -> NoDup (keys_of o) ->
+       Inv d -> R now d s -> step_refines now o d s).
+Proof. exact C05_zalg_step_refines_counterexample. Qed.
+
+Theorem C05_side_condition_holds_for_two_keys : forall o d,
+  zalg_op o = true -> Inv d -> nums d -> normals d -> zlen (dedup (keys_of o)) <= 2 -> wf_zalg o d.
+Proof. exact C05_wf_zalg_two_keys. Qed.
+
+Theorem C05_stored_scores_stay_numbers_under_every_operation : forall now o d,
+  Forall (fun r => not_nan (z_score r)) (rzset d) ->
+  Forall (fun r => not_nan (z_score r)) (rzset (fst (exec_db now o d))).
+Proof. exact C05_scores_stay_numbers_all. Qed.
+
+Theorem C05_stored_scores_never_negative_zero : forall now o d,
+  Forall (fun r => normal (z_score r)) (rzset d) ->
+  Forall (fun r => normal (z_score r)) (rzset (fst (exec_db now o d))).
+Proof. exact C05_scores_stay_normal_all. Qed.
+
 Print Assumptions C05_every_sorted_set_operation_refines_the_sorted_map.
 Print Assumptions C05_all_but_rank_lookup_refine_without_score_premise.
 Print Assumptions C05_stored_scores_stay_numbers.
@@ -79,3 +111,8 @@ Print Assumptions C05_sql_order_is_score_then_member_bytes.
 Print Assumptions C05_union_inter_no_duplicates.
 Print Assumptions C05_union_members_for_any_key_list.
 Print Assumptions C05_inter_members_for_any_key_list.
+Print Assumptions C05_union_and_intersection_refine.
+Print Assumptions C05_sum_order_counterexample.
+Print Assumptions C05_side_condition_holds_for_two_keys.
+Print Assumptions C05_stored_scores_stay_numbers_under_every_operation.
+Print Assumptions C05_stored_scores_never_negative_zero.
